@@ -167,7 +167,7 @@ EXTRA = {
     "C02": "Further phases: 'minmax' (as C01) and 'blockmeta' (the block-granular clauses judged directly on EvaluateDataBlockMetadata/FilterDataBlocks over generated metadata).",
     "C03": "Further phase 'pool': abnormally ending queries (failed/corrupted row-data read, early Close, cancel) followed by a query parked mid-scan by a stalled consumer while other queries scan equally sized blocks. Also 'bigpool': multi-chunk filter regions with a failing later chunk read and row data in the chunk buffers' size class. Pool phase also with uneven block sizes aimed so a failing block's compressed size class equals the parked block's uncompressed class.",
     "C04": "The engine-level 'e2e' phase uses histories of 3-8 small flushed files merged once or twice and prefilter-only queries.",
-    "C05": "Further phase 'stoprace': callers held between the engine's stopped check and its enqueue by a Context whose Done() parks, released before/during/after Stop. Done channels may be shared by several batches (one value per accepted batch).",
+    "C05": "Further phase 'stoprace': callers held between the engine's stopped check and its enqueue by a Context whose Done() parks, released before/during/after Stop. Done channels may be shared by several batches (one value per accepted batch). Rejected batches hold one or two unmarshalable rows (the second in another partition).",
     "C06": "Further phase 'badbatch' (rejection-heavy partitioned histories, no injected faults); 'error means absent' is also judged with the filesystem store as MetaStore unless a cleanup call itself was made to fail.",
     "C08": "Further phase 'stoprace' (see C05). When wedged: abandoned channels on producer batches, deep-backlog and quiet-wedge shapes, Flush callers queued behind the wedge (must return, and with an error after a deadline error). Abandoned empty/unmarshalable batches too.",
     "C10": "Generator modes: mixed limits, exactly one binding limit, and a trickle of small/empty requests inside every time window; answers are time-stamped by live receivers and bounded from each batch's own acceptance. Also a hum of empty requests faster than any polling period, and skewed multi-partition batches for the row-group byte limit; the obligation is re-derived from the still-unanswered batches when the buffer model may be stale. Further mode 'fireforget': only the time limit can fire, most batches carry no done channel, wholly rejected batches (unserializable row) arrive between and after them, then the engine is idle: every accepted row must be visible to a match-all query on the same engine within the same time bound.",
